@@ -117,19 +117,23 @@ impl Comments<'_> {
   }
 }
 
-/// Whether the last line of `s` ends in a `; comment` (a `;` outside text and
-/// byte string literals). Anything written after such a line without a line
-/// break in between would become part of the comment.
+/// Scan `s` as CDDL text. Returns (a comment was seen, the text ends inside a
+/// comment). Text strings have escapes, byte strings end at the next apostrophe
+/// and may span lines (cddl.pest: BYTE_STRING_INNER), so the whole text has to
+/// be scanned, not just its last line.
 #[cfg(feature = "ast-comments")]
-fn ends_in_comment(s: &str) -> bool {
-  let last = s.trim_end().rsplit('\n').next().unwrap_or("");
+fn scan_comments(s: &str) -> (bool, bool) {
   let mut quote: Option<char> = None;
-  let mut chars = last.chars();
+  let mut in_comment = false;
+  let mut seen = false;
+  let mut chars = s.chars();
   while let Some(c) = chars.next() {
+    if in_comment {
+      in_comment = c != '\n';
+      continue;
+    }
     match quote {
       Some(q) => {
-        // only text strings have escapes; a byte string ends at the next
-        // apostrophe (cddl.pest: BYTE_STRING_INNER)
         if c == '\\' && q == '"' {
           chars.next();
         } else if c == q {
@@ -138,12 +142,23 @@ fn ends_in_comment(s: &str) -> bool {
       }
       None => match c {
         '"' | '\'' => quote = Some(c),
-        ';' => return true,
+        ';' => {
+          in_comment = true;
+          seen = true;
+        }
         _ => {}
       },
     }
   }
-  false
+  (seen, in_comment)
+}
+
+/// Whether `s` (ignoring trailing blanks) ends in a `; comment`. Anything
+/// written after it without a line break in between would become part of the
+/// comment.
+#[cfg(feature = "ast-comments")]
+fn ends_in_comment(s: &str) -> bool {
+  scan_comments(s.trim_end()).1
 }
 
 /// Whether a line break in `s` lies inside a text or byte string literal
@@ -2137,7 +2152,7 @@ impl fmt::Display for Group<'_> {
       if self.group_choices.len() > 2
         && gc.group_entries.len() <= 3
         && !gc.has_entries_with_comments_before_comma()
-        && !gc_str.lines().any(ends_in_comment)
+        && !scan_comments(&gc_str).0
         && !line_break_inside_literal(&gc_str)
       {
         gc_str = gc_str.replace('\n', "");
